@@ -203,7 +203,12 @@ theorem Life.not_downloading_unloaded {s : St} (h : Life s) (hl : s.loaded = fal
 /-- `startPieceDownloaders` does nothing unless the status is `Downloading`… -/
 theorem startDls_noop_of_status (s : St) (h : s.status ≠ .downloading) : s.startDls = s := by
   unfold St.startDls
-  rw [if_neg h]
+  simp [h]
+
+/-- … nor while nothing is loaded, in ANY state (the guard `piecePicker == nil`, fix for finding C08-F5). -/
+theorem startDls_noop_of_unloaded (s : St) (h : s.loaded = false) : s.startDls = s := by
+  unfold St.startDls
+  simp [h]
 
 /-- **startDls_noop_unloaded.**  … in particular it does nothing while no pieces are loaded (no piece picker),
 in every state the event loop is in between two events. -/
